@@ -43,6 +43,7 @@ type timeoutObs struct {
 	BV     tvalue `json:"bv"`
 	Same   bool   `json:"same"`
 	Panic  bool   `json:"panic"`
+	Stray  bool   `json:"stray"` // the client also sent the OTHER protocols' timeout headers (ordinary metadata to its own protocol)
 }
 
 func digitsString(ds []int) string {
@@ -142,35 +143,59 @@ func init() {
 		if ts.CV.Kind == "absent" {
 			scn.Cl.Timeout = ""
 		}
-		o := runOnce(scn, seed)
-		out := timeoutObs{SID: ts.SID, Ev: "timeout", Form: ts.Form, Target: ts.Target, CV: ts.CV, Sent: scn.Cl.Timeout,
-			Status: o.Cl.Status, Code: o.Cl.End.Code, N: o.Ret.N, Panic: o.Ret.Panic}
-		normT := func(v *tvalue) {
-			if v.Digits == nil {
-				v.Digits = []int{}
-			}
-			if v.IP == nil {
-				v.IP = []int{}
-			}
-			if v.FP == nil {
-				v.FP = []int{}
-			}
-		}
-		normT(&out.CV)
-		out.BV = tvalue{Kind: "none", Digits: []int{}, IP: []int{}, FP: []int{}}
-		if len(o.Disp) > 0 {
-			d := o.Disp[0]
-			out.BForm = d.Form
-			out.Same = d.Same
-			present := false
-			for _, k := range d.Ctl {
-				if k == "Grpc-Timeout" || k == "Connect-Timeout-Ms" || k == "X-Server-Timeout" {
-					present = true
+		one := func(stray bool) timeoutObs {
+			scn := *scn
+			if stray {
+				// headers that mean a deadline in some other protocol and nothing in the client's own: whatever the
+				// transcoder does with them, the backend must be told the client's deadline and no other
+				if ts.Form != "grpc" && ts.Form != "grpcweb" {
+					scn.Cl.Extra = append(scn.Cl.Extra, "Grpc-Timeout: 1H")
+				}
+				if ts.Form != "connect_post" && ts.Form != "connect_stream" {
+					scn.Cl.Extra = append(scn.Cl.Extra, "Connect-Timeout-Ms: 3600000")
+				}
+				if ts.Form != "rest" {
+					scn.Cl.Extra = append(scn.Cl.Extra, "X-Server-Timeout: 3600")
 				}
 			}
-			out.BRaw = d.Timeout
-			out.BV = splitTimeout(d.Form, present, d.Timeout)
+			o := runOnce(&scn, seed)
+			out := timeoutObs{SID: ts.SID, Ev: "timeout", Form: ts.Form, Target: ts.Target, CV: ts.CV, Sent: scn.Cl.Timeout,
+				Status: o.Cl.Status, Code: o.Cl.End.Code, N: o.Ret.N, Panic: o.Ret.Panic}
+			normT := func(v *tvalue) {
+				if v.Digits == nil {
+					v.Digits = []int{}
+				}
+				if v.IP == nil {
+					v.IP = []int{}
+				}
+				if v.FP == nil {
+					v.FP = []int{}
+				}
+			}
+			normT(&out.CV)
+			out.BV = tvalue{Kind: "none", Digits: []int{}, IP: []int{}, FP: []int{}}
+			if len(o.Disp) > 0 {
+				d := o.Disp[0]
+				out.BForm = d.Form
+				out.Same = d.Same
+				present := false
+				ownKey := map[string]string{"grpc": "Grpc-Timeout", "grpcweb": "Grpc-Timeout", "connect_post": "Connect-Timeout-Ms",
+					"connect_stream": "Connect-Timeout-Ms", "connect_get": "Connect-Timeout-Ms", "rest": "X-Server-Timeout"}[d.Form]
+				for _, k := range d.Ctl {
+					if k == ownKey {
+						present = true
+					}
+				}
+				out.BRaw = d.Timeout
+				out.BV = splitTimeout(d.Form, present, d.Timeout)
+			}
+			out.Stray = stray
+			return out
 		}
-		return []any{out}
+		if ts.CV.Kind == "malformed" || ts.CV.Kind == "weird" {
+			return []any{one(false)}
+		}
+		return []any{one(false), one(true)}
+
 	})
 }
